@@ -5,7 +5,9 @@ import (
 	"fmt"
 	"os"
 	"sort"
+	"sync/atomic"
 	"testing"
+	"time"
 
 	"pgregory.net/rapid"
 
@@ -17,14 +19,28 @@ import (
 // Oracle (property statement): every call on the public Server methods returns
 // a response or an error; no panic reaches the caller (recovered = violation,
 // with the stack); the process survives (worker death = violation attributed
-// to the request in flight); wall time <= deadline + 5 s (in between:
-// inconclusive); heap growth per request < 256 MiB.
+// to the request in flight: stack overflow, panic in a goroutine the server
+// started, concurrent map access, out of memory); wall time <= deadline + 5 s
+// (deadline 1.5 s; in between: inconclusive); the request holds < 256 MiB more
+// reachable heap than at its start (measured after forced collections), and
+// the process retains < 256 MiB more after the whole case, Server.Close and a GC.
+// Verdicts that rest on the clock or the heap are re-executed on a fresh server
+// in a fresh process and must reproduce (see confirmed).
+//
+// Domain: well-typed protobuf requests. A request that the transport cannot
+// deliver (invalid UTF-8 in a proto3 string field, > 4 MiB, nested beyond
+// protobuf's recursion limit of 10000) is still executed, but its failures are
+// only counted ("out-of-domain:<signature>"). Stored tuples are written straight
+// into the datastore and may contain anything; a model stored straight into the
+// datastore must be serialisable and within the API's size / type-count limits.
 //
 // NT rule: a case is non-trivial when at least one request that carries a
 // hostile feature, or that runs against hostile state (hostile / mutated model,
 // tuples written straight into the datastore), passed the proto-level
 // validation (req.Validate() == nil) and therefore reached a command handler.
-// Requests that reached a handler are counted per RPC ("reached:<RPC>").
+// Requests that reached a handler are counted per RPC ("reached:<RPC>",
+// "reached-hostile:<RPC>"); classes: <RPC>/<outcome>[/<hostile feature>],
+// model:<source>, state:<hostile state feature>, opt:<server option>.
 
 const confirmTries = 6
 
@@ -33,33 +49,58 @@ func genC19(t *rapid.T) Case {
 	return g.Scenario()
 }
 
-func execute(c Case) Result {
+func execute(c Case) Result { return executeHang(c, hangAfter) }
+
+func executeHang(c Case, hang time.Duration) Result {
 	if os.Getenv("VERIF_C19_INPROC") == "1" {
-		return runCase(c, nil)
+		return runCaseHang(c, hang, nil)
 	}
-	res, err := execChild(c)
+	res, err := execChild(c, hang)
 	if err != nil {
 		// the worker could not be started: fall back to this process (no attribution of fatal errors)
 		fmt.Fprintf(os.Stderr, "p19: worker unavailable (%v), running in-process\n", err)
-		return runCase(c, nil)
+		return runCaseHang(c, hang, nil)
 	}
 	return res
 }
 
+// confirmed re-executes a case whose verdict rests on the clock or on the heap: on
+// fresh servers in fresh processes, with the hang bound raised to confirmAfter. A
+// request that is merely slow on a loaded machine finishes within that bound; one
+// that is stuck, starved or exponential does not. Hangs may be non-deterministic (a
+// race decides whether an evaluation short-circuits or explodes), so up to
+// confirmTries executions are made and one reproduction confirms.
+func confirmed(c Case, f *Fail) bool {
+	for k := 0; k < confirmTries; k++ {
+		again := executeHang(c, confirmAfter)
+		if again.Fail != nil && again.Fail.Signature == f.Signature {
+			return true
+		}
+		// The request overran deadline+5 s again but came back before the confirmation bound:
+		// consistently slow, not stuck. More executions would say the same; it is counted
+		// (class "slow-not-stuck:<rpc>") and left inconclusive, because a bound that a loaded
+		// machine can stretch a 2 s request beyond is not evidence.
+		for _, rr := range again.Reqs {
+			if rr.I == f.ReqIndex && rr.WallMs > float64((reqDeadline+hangAfter).Milliseconds()) {
+				slowNotStuck.Add(1)
+				return false
+			}
+		}
+	}
+	return false
+}
+
+var slowNotStuck atomic.Int64
+
 func checkC19(env *fw.Env, c Case) *fw.Failure {
 	res := execute(c)
 	if res.Fail != nil && res.Fail.Timing && !fw.IsKnown(res.Fail.Signature) {
-		// Wall-clock and heap verdicts must not depend on a busy machine: the same request
-		// must fail the same way again on a fresh server in a fresh process. Hangs may be
-		// non-deterministic (a race decides whether an evaluation short-circuits or explodes),
-		// so up to confirmTries further executions are made and one reproduction confirms.
-		confirmed := false
-		for k := 0; k < confirmTries && !confirmed; k++ {
-			again := execute(c)
-			confirmed = again.Fail != nil && again.Fail.Signature == res.Fail.Signature
-		}
+		ok := confirmed(c, res.Fail)
 		env.Rec.Add("timing_verdicts_rechecked", 1)
-		if !confirmed {
+		if n := slowNotStuck.Swap(0); n > 0 {
+			env.Rec.Add("slow_past_deadline_plus_5s_but_not_stuck", int(n))
+		}
+		if !ok {
 			env.Rec.Inconclusive()
 			env.Rec.Add("timing_not_confirmed", 1)
 			res.Fail = nil
